@@ -89,7 +89,8 @@ def translate_pattern(pattern: str, flags: int = 0, xsd_version: str = '1.0',
                         msg = "unescaped character '-' at position {}: {!r}"
                         raise RegexError(msg.format(hyphen_pos, pattern))
 
-                char_class = CharacterClass(char_class_pattern, xsd_version)
+                char_class = CharacterClass(char_class_pattern, xsd_version,
+                                            bool(flags & re.IGNORECASE))
                 if negative:
                     char_class.complement()
                 break  # pragma: no cover
@@ -143,6 +144,10 @@ def translate_pattern(pattern: str, flags: int = 0, xsd_version: str = '1.0',
             else:
                 if char_class_repr == '[]':
                     regex.append(r'[^\w\W]')
+                elif flags & re.IGNORECASE:
+                    # the case variants of the characters are in the class, the category
+                    # escapes and the character class escapes match case-sensitively
+                    regex.append('(?-i:%s)' % char_class_repr)
                 else:
                     regex.append(char_class_repr)
 
